@@ -257,13 +257,42 @@ def suite_fps_cli(seed, tier):
             # ---- info on file, dir, 1-D and float files
             np.save(d / "oned.npy", np.arange(5, dtype=np.uint8))
             np.save(d / "flt.npy", np.zeros((3, 4), dtype=np.float32))
-            for target in (src, d, d / "oned.npy", d / "flt.npy"):
+            # ... and on files that are not fingerprint files at all: other dtypes (object, unicode, structured,
+            # bool), other ranks (0-d, 3-d), and files that are not readable .npy files (wrong magic string,
+            # empty, header cut short); valid but unusual ones (no rows, column-major, big-endian) must not be
+            # flagged; and a directory holding all of them must be described file by file
+            odd = d / "odd"
+            odd.mkdir()
+            invalid = {"obj.npy": np.array(["CCO", "c1ccccc1", "N"], dtype=object),
+                       "uni.npy": np.array([["ab", "cd"]]), "struct.npy": np.zeros(3, dtype=[("a", "u1"), ("b", "u1")]),
+                       "boolm.npy": np.zeros((3, 4), dtype=bool), "zerod.npy": np.array(7, dtype=np.uint8),
+                       "threed.npy": np.zeros((2, 3, 4), dtype=np.uint8)}
+            valid = {"norows.npy": np.zeros((0, 8), dtype=np.uint8),
+                     "fort.npy": np.asfortranarray(np.ones((3, 8), dtype=np.uint8)),
+                     "bigend.npy": np.ones((3, 8), dtype=">u2")}
+            for nm, arr in {**invalid, **valid}.items():
+                np.save(odd / nm, arr)
+            whole = src.read_bytes()
+            (odd / "text.npy").write_text("not a numpy file")
+            (odd / "nothing.npy").write_bytes(b"")
+            (odd / "cut.npy").write_bytes(whole[:30])
+            unreadable = ("text.npy", "nothing.npy", "cut.npy")
+            for target in [src, d, d / "oned.npy", d / "flt.npy", odd] + sorted(odd.iterdir()):
                 rc, out, exc = _invoke(["fps-info", str(target)])
                 cases += 1
                 if rc != 0:
-                    r.bad.append({"suite": "fps-cli", "what": f"fps-info failed on {target.name}: {exc!r}"})
-                elif target.name in ("oned.npy", "flt.npy") and "Invalid" not in out:
-                    r.bad.append({"suite": "fps-cli", "what": f"fps-info did not flag {target.name} as invalid"})
+                    r.bad.append({"suite": "fps-cli", "what": f"fps-info failed on {target.name}: {exc!r}",
+                                  "fps_info_target": target.name})
+                elif (target.name in ("oned.npy", "flt.npy") or target.name in invalid or target.name in unreadable) \
+                        and "Invalid" not in out:
+                    r.bad.append({"suite": "fps-cli", "what": f"fps-info did not flag {target.name} as invalid",
+                                  "fps_info_target": target.name})
+                elif target.name in valid and "Invalid" in out:
+                    r.bad.append({"suite": "fps-cli", "what": f"fps-info flagged the valid file {target.name} as invalid",
+                                  "fps_info_target": target.name})
+                elif target is odd and out.count("Invalid") != len(invalid) + len(unreadable):
+                    r.bad.append({"suite": "fps-cli", "what": f"fps-info on a directory flagged {out.count('Invalid')} files "
+                                  f"as invalid, {len(invalid) + len(unreadable)} are", "fps_info_target": "odd/"})
         # ---- fps-from-smiles: parts x processes x pack, invalid smiles at arbitrary positions
         # every way of cutting the input into batches (one file filled by several workers, one file
         # filled batch by batch by one worker, several files) with an invalid entry in EVERY batch:
